@@ -799,6 +799,13 @@ impl TypedExpr {
             }
             ExprEnum::UnaryOp(UnaryOp::Neg, x) => {
                 let x = x.compile(prg, env, circuit);
+                // the smallest value (only the sign bit is set) has no representable negation:
+                let mut is_min = x[0];
+                for &w in x.iter().skip(1) {
+                    let not_w = circuit.push_not(w);
+                    is_min = circuit.push_and(is_min, not_w);
+                }
+                circuit.push_panic_if(is_min, PanicReason::Overflow, meta);
                 circuit.push_negation_circuit(&x)
             }
             ExprEnum::UnaryOp(UnaryOp::Not, x) => {
